@@ -7,7 +7,7 @@
    failing ones included: the two sides then report the same failure).  [of_list l] is a fully
    evaluated list seen as a stream, [collect] is List.Eval/ToSlice. *)
 From P2 Require Import Base.Prelude Sem.Num Sem.Syntax Sem.Ops Sem.Lib Lib.Builtins Lib.ListLib
-  Lib.BuiltinsProofs Lib.PipelineProofs Run.C07Run Generated.ValueMethods.
+  Lib.BuiltinsProofs Lib.GroupProofs Lib.PipelineProofs Run.C07Run Generated.ValueMethods.
 From Coq Require Import Permutation Sorted.
 Local Open Scope Z_scope.
 
@@ -201,6 +201,42 @@ Theorem C07_replace_absent_invisible : forall reps m,
   (forall k, assoc_v k m <> None -> assoc_v k r <> None).
 Proof. exact (fun reps m => conj (replace_absent_invisible reps m) (replace_present reps m)). Qed.
 
+(* groupBy* / unique*: the implementation model's answer ALWAYS passes the checker (so the checker verdict
+   on the implementation is implied by implementation = model).  Keys live in any type K with a boolean
+   equivalence eqk that the = of the language decides on embedded keys (K = Z, inj = VInt for
+   groupByInt/uniqueInt; K = str, inj = VStr for groupByString/uniqueString): whenever the key function
+   answers such keys, the model answers a grouping, never a failure. *)
+Theorem C07_groupBy_model_passes_checker : forall (K : Type) (eqk : K -> K -> bool) (inj : K -> value),
+  (forall a b, veq (inj a) (inj b) = Ok (eqk a b)) ->
+  forall key : value -> K,
+  (forall a, eqk a a = true) -> (forall a b, eqk a b = eqk b a) ->
+  (forall a b c, eqk a b = true -> eqk b c = true -> eqk a c = true) ->
+  forall eqA : value -> value -> bool, (forall a, eqA a a = true) ->
+  forall (keyf : value -> res value) (l : list value),
+  (forall x, In x l -> keyf x = Ok (inj (key x))) ->
+  exists gs, group_all keyf [] l = Ok (map (injg inj) gs) /\
+             check_groups eqA eqk (keyb eqk key) l gs = true.
+Proof. exact (@group_model_passes_checker). Qed.
+
+Theorem C07_unique_model_passes_checker : forall (K : Type) (eqk : K -> K -> bool) (inj : K -> value),
+  (forall a b, veq (inj a) (inj b) = Ok (eqk a b)) ->
+  forall key : value -> K,
+  (forall a, eqk a a = true) -> (forall a b, eqk a b = eqk b a) ->
+  forall (keyf : value -> res value) (l : list value),
+  (forall x, In x l -> keyf x = Ok (inj (key x))) ->
+  exists ks, m_unique keyf l = Ok (map inj ks) /\ check_unique eqk (keyb eqk key) l ks = true.
+Proof. exact (@unique_model_passes_checker). Qed.
+
+(* completeness of check_groups (the converse of C07_check_groups_sound) *)
+Theorem C07_check_groups_complete : forall (A K : Type) (eqk : K -> K -> bool) (key : A -> K) (eqA : A -> A -> bool),
+  (forall a, eqA a a = true) ->
+  forall inp gs,
+  (forall g, In g gs -> snd g <> [] /\ snd g = filter (fun x => keyb eqk key x (fst g)) inp) ->
+  nodup_b eqk (map fst gs) = true ->
+  length (concat (map snd gs)) = length inp ->
+  check_groups eqA eqk (keyb eqk key) inp gs = true.
+Proof. exact (@check_groups_complete). Qed.
+
 (* non-vacuity: a pipeline with a failing callback behind a truncating stage, and the repaired corners *)
 Example C07_nonvacuous_lazy :
   collect (s_top 1 (s_map (fun x => match x with VInt 1 => Ok x | _ => Err None end) (of_list [VInt 1; VInt 2])))
@@ -234,3 +270,6 @@ Print Assumptions C07_check_groups_sound.
 Print Assumptions C07_string_specs.
 Print Assumptions C07_misuse_is_error.
 Print Assumptions C07_replace_absent_invisible.
+Print Assumptions C07_groupBy_model_passes_checker.
+Print Assumptions C07_unique_model_passes_checker.
+Print Assumptions C07_check_groups_complete.
